@@ -13,6 +13,24 @@ CHECKS = {
             'Trusted: Lean kernel; axioms propext, Classical.choice, Quot.sound; the correspondence harness. Not modelled: the email package (content-type / boundary decisions), nested part '
             'selection (_get_subpart) and BODYSTRUCTURE sizes are monitored on the wire only. Known findings D5, D6, D35 (see known_findings.json).',
             'DESIGN.md section 6 C03'),
+    'C01': ('Lean 4 theorems over a hand-written model of selected.py (invariant + refinement of the ghost client) + command-level differential correspondence',
+            'C01_coherent, C01_fork_sync, C01_hide_no_expunge, C01_fetch_labels and C01_system (any number of sessions, any operation list) are proved in Lean about the model of '
+            'SynchronizedMessages/_Frozen/_compare and the closed System; merge_same_message / seq_stable_without_expunge justify the repaired FETCH merge. The model (Server.lean composes '
+            'those functions) is diffed per command against 1-4 real IMAP connections on random interleaved programs, and a shadow client applies every untagged response of every session.',
+            'Trusted: Lean kernel, axioms propext/Classical.choice/Quot.sound, the harness. Interleavings are command-atomic on the real server (what asyncio produces on the dict backend); '
+            'finer ones are covered by the System theorem only. Server.lean (glue composing the proved functions) is validated by the correspondence, not proved. WeakSet/GC behaviour assumed.',
+            'DESIGN.md section 6 C01'),
+    'C02': ('Lean 4 invariants over the change-log model (_ModSequenceMapping) and convergence theorem + command-level differential correspondence',
+            'C02_log_inv, C02_log_complete and C02_noop_converges (every history, every session) are proved in Lean; the real server is diffed against the model on mutation-heavy multi-session '
+            'programs, _ModSequenceMapping is diffed through MailboxData public methods, and at every quiescent end each session\'s told view (from the bytes alone) must equal the probe\'s dump.',
+            'Trusted: as C01. maildir (full rescan) is not diffed against the model here.',
+            'DESIGN.md section 6 C02'),
+    'C10': ('Lean 4 refinement theorems to a plain IMAP reference spec + differential correspondence + independent reference-model monitor',
+            'C10_seqset, C10_store_refines, C10_expunge_refines, C10_append_refines, C10_permitted are proved in Lean (implementation model refines PymapSpec/Imap.lean for every view, set and flag list). '
+            'Tie: single-session programs, real dict server vs Lean Server model per command; SequenceSet.flatten vs Seq.flatten. Monitor: an independent Python reference model stepped on dict, maildir(++), '
+            'maildir(fs) with a full probe dump after every command.',
+            'Trusted: as C01. COPY/MOVE/FETCH-seen/CLOSE are in the executable model and the reference monitor but their refinement lemmas are not yet proved in Lean.',
+            'DESIGN.md section 6 C10'),
 }
 
 NOT_YET = 'check not built yet in this round (see DESIGN.md section 10 for the build order); nothing is claimed'
